@@ -1005,7 +1005,7 @@ def run(ctx: Any) -> None:
                           behave={"raise": ex}, use_ctx=i % 2 == 1, n_pairs=ctx.budget(2, 30), full=full)
     explore_signature(ctx, CORPUS_SIGS[3], rng, version="1.2.3", behave="ok", use_ctx=True, n_pairs=ctx.budget(4, 40), full=full)
     # random signatures
-    for k in range(ctx.budget(30, 400)):
+    for k in range(ctx.budget(30, 300)):
         m = gen_method(rng, "m0", "unary")
         explore_signature(ctx, m["params"], rng, version="1.2.0" if rng.random() < 0.15 else None, behave=m["behave"],
                           use_ctx=m["ctx"], n_pairs=ctx.budget(4, 30), full=full and k % 4 == 0)
